@@ -102,18 +102,18 @@ theorem safeS : ∀ (s : Stmt) (Γ : TyEnv) (P : List Expr) (σ : State V), Inv 
   | .assign x idx rhs, Γ, P, σ, h, ho => by
     simp only [genS] at ho
     simp only [execS]
-    exact NoBad.bind (evalD_noBad ext h rhs ho.append.1) (fun _ _ => writeCell_noBad h ho.append.2 _)
+    exact NoBad.bind (evalD_noBad ext h false rhs ho.append.1) (fun _ _ => writeCell_noBad h ho.append.2 _)
   | .reduce x idx rhs, Γ, P, σ, h, ho => by
     simp only [genS] at ho
     simp only [execS]
-    exact NoBad.bind (evalD_noBad ext h rhs ho.append.1) (fun _ _ => writeCell_noBad h ho.append.2 _)
+    exact NoBad.bind (evalD_noBad ext h false rhs ho.append.1) (fun _ _ => writeCell_noBad h ho.append.2 _)
   | .writecfg c f rhs isData, Γ, P, σ, h, ho => by
     simp only [genS] at ho
     simp only [execS]
     cases isData with
     | true =>
       simp only [if_true] at ho ⊢
-      exact NoBad.bind (evalD_noBad ext h rhs ho) (fun _ _ => NoBad.ok _)
+      exact NoBad.bind (evalD_noBad ext h false rhs ho) (fun _ _ => NoBad.ok _)
     | false =>
       simp only [Bool.false_eq_true, if_false]
       exact NoBad.bind (evalC_noBad σ rhs) (fun _ _ => NoBad.ok _)
